@@ -19,6 +19,7 @@ from rules.common import *
 import runner
 from rules.C18 import cd_conditions
 
+TECHNIQUE = ('static analysis over rustc MIR: exact decision/executor tables by finite-domain interpretation, who-feeds-the-index rule over all IndexCollector::extend sites, pack-identity rule, default-value evaluation of PruneOptions, index-before-pack removal ordering')
 LEVEL = "other"
 EXPLANATION = (
     "The lock-free prune/backup protocol is reduced to structural invariants over commands/prune.rs and the index "
